@@ -235,9 +235,57 @@ func keepsTraces(o *ach.ValidateOpts) bool {
 	return o != nil && (o.BypassOriginValidation || o.CustomTraceNumbers)
 }
 
+// commonBatchFlags: the flags every batch of the file carries (in most domain files that is the file's own set;
+// when the options sit on the batches only, or the file carries an unrelated set, it is the batches' set)
+func commonBatchFlags(in *ach.File) []string {
+	var sets [][]string
+	for _, b := range in.Batches {
+		sets = append(sets, Flags(BatchOpts(b)))
+	}
+	for i := range in.IATBatches {
+		sets = append(sets, Flags(IATOpts(&in.IATBatches[i])))
+	}
+	if len(sets) == 0 {
+		return nil
+	}
+	var out []string
+	for _, f := range sets[0] {
+		all := true
+		for _, s := range sets[1:] {
+			found := false
+			for _, g := range s {
+				if g == f {
+					found = true
+				}
+			}
+			if !found {
+				all = false
+			}
+		}
+		if all {
+			out = append(out, f)
+		}
+	}
+	return out
+}
+
+func missingFlags(have *ach.ValidateOpts, want []string) []string {
+	h := map[string]bool{}
+	for _, f := range Flags(have) {
+		h[f] = true
+	}
+	var out []string
+	for _, f := range want {
+		if !h[f] {
+			out = append(out, f)
+		}
+	}
+	return out
+}
+
 // Derived checks a file an operation derived from `in`: it validates under the options it
-// carries, the file carries the same flag set as the input, every batch at least the flags of
-// the input file (all batches of a domain file carry the file's set).
+// carries, the file carries the same flag set as the input, every batch at least the flags that
+// every batch of the input carries (its entries come from one of them).
 func Derived(op, what string, in, out *ach.File, add func(key, what string)) {
 	if err := gen.ValidAll(out); err != nil {
 		add(op+":opts:output-invalid", what+" does not validate under the options it carries: "+err.Error())
@@ -246,13 +294,13 @@ func Derived(op, what string, in, out *ach.File, add func(key, what string)) {
 		add(op+":opts:file-options-not-carried", fmt.Sprintf("%s carries %v, the input carries %v", what, Flags(out.GetValidation()), Flags(in.GetValidation())))
 	}
 	for _, b := range out.Batches {
-		if m := Missing(BatchOpts(b), in.GetValidation()); len(m) > 0 {
+		if m := missingFlags(BatchOpts(b), commonBatchFlags(in)); len(m) > 0 {
 			add(op+":opts:batch-options-not-carried", fmt.Sprintf("a batch of %s lacks %v of the batch its entries come from", what, m))
 			break
 		}
 	}
 	for i := range out.IATBatches {
-		if m := Missing(IATOpts(&out.IATBatches[i]), in.GetValidation()); len(m) > 0 {
+		if m := missingFlags(IATOpts(&out.IATBatches[i]), commonBatchFlags(in)); len(m) > 0 {
 			add(op+":opts:batch-options-not-carried", fmt.Sprintf("an IAT batch of %s lacks %v of the batch its entries come from", what, m))
 			break
 		}
